@@ -196,6 +196,10 @@ def Ed.bufsLoad (ed : Ed) : Ed := match ed.cur with
 /-- `bufs_switch(idx)`: slot `idx` moves to the front, slots `0..idx-1` shift down -/
 def Ed.bufsSwitch (ed : Ed) (idx : Nat) : Ed :=
   let ed := ed.bufsSave
+  -- `if (bufs[0].lb) lbuf_modified(bufs[0].lb)`: leaving a buffer ends its undo step
+  let ed := match ed.bufs.getD 0 none with
+    | some b => { ed with bufs := ed.bufs.set 0 (some { b with lb := (Lbuf.modified b.lb).2 }) }
+    | none => ed
   let tmp := ed.bufs.getD idx none
   let bufs := [tmp] ++ ed.bufs.take idx ++ ed.bufs.drop (idx + 1)
   ({ ed with bufs := bufs }).bufsLoad
